@@ -12,7 +12,7 @@ use alpenglow::crypto::merkle::BlockHash;
 use alpenglow::crypto::signature::{PublicKey, SecretKey};
 use alpenglow::shredder::{
     AontShredder, CodingOnlyShredder, DATA_SHREDS, DeshredError, MAX_DATA_PER_SLICE, PetsShredder, RegularShredder, Shred,
-    Shredder, TOTAL_SHREDS, ValidatedShred,
+    Shredder, TOTAL_SHREDS, ValidatedShred, verif_shreds_from_raw,
 };
 use alpenglow::types::{Slice, SliceIndex, Slot};
 
@@ -127,22 +127,39 @@ impl V {
             V::P | V::A => KEY_BYTES,
         }
     }
+    // One long-lived shredder per variant for the whole run, as a node keeps (pools) its shredders: the outcome of an
+    // operation must depend on its arguments only, not on what the instance was used for before (failed decodes
+    // included). A panic may leave an instance in any state, so it is replaced after one.
     fn shred(self, slice: &Slice, sk: &SecretKey) -> Result<Result<[ValidatedShred; TOTAL_SHREDS], String>, String> {
-        catch(|| match self {
-            V::R => RegularShredder::default().shred(slice, sk).map_err(|e| format!("{e:?}")),
-            V::C => CodingOnlyShredder::default().shred(slice, sk).map_err(|e| format!("{e:?}")),
-            V::P => PetsShredder::default().shred(slice, sk).map_err(|e| format!("{e:?}")),
-            V::A => AontShredder::default().shred(slice, sk).map_err(|e| format!("{e:?}")),
+        POOL.with(|p| {
+            let mut p = p.borrow_mut();
+            let r = catch(|| match self {
+                V::R => p.0.shred(slice, sk).map_err(|e| format!("{e:?}")),
+                V::C => p.1.shred(slice, sk).map_err(|e| format!("{e:?}")),
+                V::P => p.2.shred(slice, sk).map_err(|e| format!("{e:?}")),
+                V::A => p.3.shred(slice, sk).map_err(|e| format!("{e:?}")),
+            });
+            if r.is_err() { *p = Default::default(); }
+            r
         })
     }
     fn deshred(self, arr: &mut [Option<ValidatedShred>; TOTAL_SHREDS]) -> Result<Result<alpenglow::types::ReconstructedSlice, DeshredError>, String> {
-        catch(|| match self {
-            V::R => RegularShredder::default().deshred(arr),
-            V::C => CodingOnlyShredder::default().deshred(arr),
-            V::P => PetsShredder::default().deshred(arr),
-            V::A => AontShredder::default().deshred(arr),
+        POOL.with(|p| {
+            let mut p = p.borrow_mut();
+            let r = catch(|| match self {
+                V::R => p.0.deshred(arr),
+                V::C => p.1.deshred(arr),
+                V::P => p.2.deshred(arr),
+                V::A => p.3.deshred(arr),
+            });
+            if r.is_err() { *p = Default::default(); }
+            r
         })
     }
+}
+
+thread_local! {
+    static POOL: std::cell::RefCell<(RegularShredder, CodingOnlyShredder, PetsShredder, AontShredder)> = std::cell::RefCell::new(Default::default());
 }
 
 /// bit-for-bit fingerprint of a validated shred: wire bytes of the shred + the cached root
@@ -530,6 +547,37 @@ fn main() {
         }
         let class = cx.class;
         cx.rec.end_case(class, true);
+    }
+
+    // ---- history independence (oracle only, outside the compared stream): on one long-lived shredder a decode that
+    // fails inside the Reed-Solomon layer (validly signed shards without a padding marker / of unequal or oversize
+    // length) must not influence the next decode of a good slice
+    {
+        let n_hist = if args.thorough { 60 } else { 12 };
+        for k in 0..n_hist {
+            let slot = Slot::new(50_000 + k as u64);
+            let si: SliceIndex = wincode::deserialize(&(rng.below(8)).to_le_bytes()).expect("si");
+            let glen = rng.below(2000) as usize;
+            let good = Slice { slot, slice_index: si, is_last: rng.chance(1, 2), parent: None, data: rng.bytes(glen) };
+            let Ok(Ok(good_shreds)) = V::R.shred(&good, &cx.sk) else { continue };
+            let shard = 2 * (1 + rng.below(40) as usize);
+            let (data, what): (Vec<Vec<u8>>, &str) = match k % 3 {
+                0 => ((0..DATA_SHREDS).map(|_| vec![0u8; shard]).collect(), "no padding marker"),
+                1 => ((0..DATA_SHREDS).map(|_| vec![0x55u8; 1100]).collect(), "oversize shards without marker"),
+                _ => ((0..DATA_SHREDS).map(|i| vec![0x11u8; shard + 2 * (i % 2)]).collect(), "unequal shard sizes"),
+            };
+            let coding: Vec<Vec<u8>> = (0..TOTAL_SHREDS - DATA_SHREDS).map(|_| vec![0u8; data[0].len()]).collect();
+            let bad = catch(|| verif_shreds_from_raw(slot, si, false, data, coding, &cx.sk));
+            let Ok(bad) = bad else { continue };
+            let mut arr_bad: [Option<ValidatedShred>; TOTAL_SHREDS] = std::array::from_fn(|i| if i < DATA_SHREDS { Some(bad[i].clone()) } else { None });
+            let r_bad = V::R.deshred(&mut arr_bad);
+            cx.rec.count(&format!("history:bad-decode:{}", match &r_bad { Ok(Ok(_)) => "ok".to_string(), Ok(Err(e)) => format!("{e:?}"), Err(_) => "panic".to_string() }));
+            let keep: Vec<usize> = { let mut v: Vec<usize> = (0..TOTAL_SHREDS).collect(); rng.shuffle(&mut v); v.truncate(DATA_SHREDS + rng.below(5) as usize); v };
+            let mut arr: [Option<ValidatedShred>; TOTAL_SHREDS] = std::array::from_fn(|i| if keep.contains(&i) { Some(good_shreds[i].clone()) } else { None });
+            let r = V::R.deshred(&mut arr);
+            let ok = matches!(&r, Ok(Ok(rs)) if rs.data == good.data);
+            cx.rec.oracle(ok, "deshred-depends-on-history", || format!("a good slice ({} data bytes, {} of its shreds) no longer reconstructs ({:?}) on a shredder instance that just failed to decode validly signed shards ({what})", good.data.len(), keep.len(), r.as_ref().map(|x| x.as_ref().map(|_| "other data").map_err(|e| format!("{e:?}")))));
+        }
     }
 
     let extra = serde_json::json!({ "payload_lengths": plens.len(), "assumption_checks": "MDS / cipher involution / key mask are exercised by every successful round trip of the real shredders" });
